@@ -289,3 +289,49 @@ func genDecvOp(r *Rng) string {
 		return "decv.NACK " + hx(finish(b)) + " | " + bodyTokens(v)
 	}
 }
+
+// genBigDecvOp: feedback packets of 65540 octets and more (length field >= 0x4000), built field by field with the
+// values they must decode to: 16-bit arithmetic on the octet length does not hold them.
+func genBigDecvOp(r *Rng, which int) string {
+	s, m := uint32(r.U64()), uint32(r.U64())
+	switch which {
+	case 0:
+		n := r.Pick(16382, 16383, 16385)
+		v := &rtcp.TransportLayerNack{SenderSSRC: s, MediaSSRC: m}
+		b := hdrBytes(false, 1, 205, 0)
+		b = binary.BigEndian.AppendUint32(b, s)
+		b = binary.BigEndian.AppendUint32(b, m)
+		for i := 0; i < n; i++ {
+			p := rtcp.NackPair{PacketID: uint16(r.U64()), LostPackets: rtcp.PacketBitmap(r.U64())}
+			v.Nacks = append(v.Nacks, p)
+			b = binary.BigEndian.AppendUint16(b, p.PacketID)
+			b = binary.BigEndian.AppendUint16(b, uint16(p.LostPackets))
+		}
+		return "decv.NACK " + hx(finish(b)) + " | " + bodyTokens(v)
+	case 1:
+		n := r.Pick(8191, 8192, 8200)
+		v := &rtcp.FullIntraRequest{SenderSSRC: s, MediaSSRC: m}
+		b := hdrBytes(false, 4, 206, 0)
+		b = binary.BigEndian.AppendUint32(b, s)
+		b = binary.BigEndian.AppendUint32(b, m)
+		for i := 0; i < n; i++ {
+			e := rtcp.FIREntry{SSRC: uint32(r.U64()), SequenceNumber: uint8(r.U64())}
+			v.FIR = append(v.FIR, e)
+			b = binary.BigEndian.AppendUint32(b, e.SSRC)
+			b = append(b, e.SequenceNumber, 0, 0, 0)
+		}
+		return "decv.FIR " + hx(finish(b)) + " | " + bodyTokens(v)
+	default:
+		n := r.Pick(16382, 16383, 16385)
+		v := &rtcp.SliceLossIndication{SenderSSRC: s, MediaSSRC: m}
+		b := hdrBytes(false, 2, 205, 0) // the packet type this library's SLI decoder expects (known finding sli-packet-type)
+		b = binary.BigEndian.AppendUint32(b, s)
+		b = binary.BigEndian.AppendUint32(b, m)
+		for i := 0; i < n; i++ {
+			e := rtcp.SLIEntry{First: uint16(r.Bits(13, 13)), Number: uint16(r.Bits(13, 13)), Picture: uint8(r.Bits(6, 6))}
+			v.SLI = append(v.SLI, e)
+			b = binary.BigEndian.AppendUint32(b, uint32(e.First)<<19|uint32(e.Number)<<6|uint32(e.Picture))
+		}
+		return "decv.SLI " + hx(finish(b)) + " | " + bodyTokens(v)
+	}
+}
